@@ -135,6 +135,40 @@ Example C16_canon_serial_single_ref :
   s_dict (fst (run w_canon_fine_serial (init (fun _ => 0) w_canon_progs))) w_canon_str = 0.
 Proof. vm_compute. split; reflexivity. Qed.
 
+(* logging options. The process-wide cell ly_log_opts (ly_log_options) and the thread-local override
+   temp_ly_log_opts (ly_temp_log_options): when no thread writes the process-wide cell after the setup (library code
+   silences the logger with the override only: lydxml_data_check_opaq and the other users of ly_temp_log_options),
+   then in every schedule every logging call of a thread that uses no override itself works with the options the
+   application set - whatever overrides the other threads set and clear meanwhile. *)
+Theorem C16_log_temp_override_isolated : forall g0 d0 progs sched t p,
+  (forall q, In q progs -> global_log_free q = true) ->
+  nth_error progs t = Some p -> temp_log_free p = true ->
+  forall v, In (t, EvLogOpts v) (snd (run sched (init_log g0 d0 progs))) -> v = g0.
+Proof. exact log_temp_override_isolated. Qed.
+Print Assumptions C16_log_temp_override_isolated.
+
+(* compiled API programs (including the silenced trial ASilentTrial, as coded) never write the process-wide cell *)
+Theorem C16_api_programs_global_log_free : forall ops, global_log_free (compile ops) = true.
+Proof.
+  induction ops as [|o ops IH]; [reflexivity|]. unfold compile, global_log_free in *. cbn [map concat].
+  rewrite existsb_app. destruct o; cbn; exact IH.
+Qed.
+Print Assumptions C16_api_programs_global_log_free.
+
+(* why the API has ly_temp_log_options: the same trial done with the process-wide cell (prev = ly_log_options(0); ...;
+   ly_log_options(prev)) is visible to other threads: a logging call of thread 1 inside thread 0's window works with
+   options 0 instead of 3 (its error is neither stored nor printed), and two overlapping windows (0 saves 3, 1 saves
+   0, 0 restores 3, 1 restores 0) leave the process-wide options at 0 for good. With the override (as coded) thread 1
+   sees 3 under the same schedule. (This is what a seeded change of lydxml_data_check_opaq did to the C code; the
+   oracle conc-serial sees it as lost error records and as a changed process-wide state.) *)
+Example C16_log_global_window_visible :
+  In (1%nat, EvLogOpts 0) (snd (run w_log_fine (init_log 3 (fun _ => 0) w_log_progs))) /\
+  s_logopts (fst (run w_log_fine (init_log 3 (fun _ => 0) w_log_progs))) = 3 /\
+  all_done (fst (run w_log2_fine (init_log 3 (fun _ => 0) w_log2_progs))) = true /\
+  s_logopts (fst (run w_log2_fine (init_log 3 (fun _ => 0) w_log2_progs))) = 0 /\
+  In (1%nat, EvLogOpts 3) (snd (run w_log_fine (init_log 3 (fun _ => 0) w_log_progs_temp))).
+Proof. vm_compute. repeat split; auto. Qed.
+
 (* the hypotheses of the positive theorems are satisfiable by non-trivial values: three threads inserting and removing
    overlapping strings under a schedule that interleaves their critical sections; all finish, every call succeeded,
    all references were given back and the dictionary is the initial one *)
